@@ -1868,8 +1868,15 @@ class Signature:
         param_dict = {}
         i = 0
         for param in parameters:
-            if param.kind is ParameterKind.VAR_POSITIONAL and isinstance(
-                param.annotation, SequenceValue
+            if (
+                param.kind is ParameterKind.VAR_POSITIONAL
+                and isinstance(param.annotation, SequenceValue)
+                # The members become required positional-only parameters, which
+                # can only follow other required positional-only parameters.
+                and all(
+                    prev.kind is ParameterKind.POSITIONAL_ONLY and prev.default is None
+                    for prev in param_dict.values()
+                )
             ):
                 simple_members = param.annotation.get_member_sequence()
                 if simple_members is None:
